@@ -48,21 +48,29 @@ instance (N : Nat) (b : Bed) : Decidable (WF N b) := by unfold WF; infer_instanc
 /-- One physical line of a BED file: a record, or a line the reader skips
 (blank or `#` comment); each with its own terminator (LF or CR LF). -/
 inductive Entry where
-  | rec (b : Bed) (crlf : Bool)
+  | record (b : Bed) (crlf : Bool)
   | skip (l : Bytes) (crlf : Bool)
 
 def lineEnd (crlf : Bool) : Bytes := if crlf then [13, 10] else [10]
 
-def Entry.bytes : Entry → Bytes
-  | .rec b crlf => (encodeLine b).getD [] ++ lineEnd crlf
-  | .skip l crlf => l ++ lineEnd crlf
+def Entry.line : Entry → Bytes
+  | .record b _ => (encodeLine b).getD []
+  | .skip l _ => l
 
-def Entry.items (N : Nat) : Entry → List (Item Bed)
-  | .rec b _ => [Item.ok (truncate N b)]
-  | .skip _ _ => []
+def Entry.crlf : Entry → Bool
+  | .record _ c => c
+  | .skip _ c => c
+
+/-- The bytes of the line including its terminator. -/
+def Entry.bytes (e : Entry) : Bytes := e.line ++ lineEnd e.crlf
+
+/-- What the reader reports for the line. -/
+def Entry.out (N : Nat) : Entry → Option Bed
+  | .record b _ => some (truncate N b)
+  | .skip _ _ => none
 
 def Entry.OK (N : Nat) : Entry → Prop
-  | .rec b _ => WF N b
+  | .record b _ => WF N b
   | .skip l _ => isSkipped l = true ∧ ∀ c ∈ l, c ≠ 10 ∧ c ≠ 13
 
 instance (N : Nat) (e : Entry) : Decidable (e.OK N) := by
@@ -79,7 +87,7 @@ def ex12 : Bed :=
 
 /-- 3 fields; the fields beyond the third hold junk that is not written. -/
 def ex3 : Bed :=
-  { ex12 with n := 3, chrom := [], blockCount := 77, strand := [], name := [9] |>.drop 1 }
+  { ex12 with n := 3, chrom := [], blockCount := 77 }
 
 /-- 11 fields: block count must be 0 and sizes empty; starts are not written. -/
 def ex11 : Bed :=
@@ -136,6 +144,25 @@ theorem roundtrip (N : Nat) (b : Bed) (h : WF N b) :
 
 example : WF 12 ex12 ∧ truncate 12 ex12 = ex12 := by decide
 example : WF 3 ex3 ∧ truncate 3 ex3 ≠ ex3 := by decide
+/-- The line written for `ex12` (chr1, -5, maxInt64, `"a"\0\xFF# `, minInt64, `-`, 0, -1, `255,0,7`, 2, `10,-20`, `0,300`). -/
+example : encodeLine ex12 = some
+    [99, 104, 114, 49, 9, 45, 53, 9, 57, 50, 50, 51, 51, 55, 50, 48, 51, 54, 56, 53, 52, 55, 55, 53, 56, 48, 55, 9,
+     34, 97, 34, 0, 255, 35, 32, 9, 45, 57, 50, 50, 51, 51, 55, 50, 48, 51, 54, 56, 53, 52, 55, 55, 53, 56, 48, 56,
+     9, 45, 9, 48, 9, 45, 49, 9, 50, 53, 53, 44, 48, 44, 55, 9, 50, 9, 49, 48, 44, 45, 50, 48, 9, 48, 44, 51, 48, 48] := by
+  decide +kernel
+/-- Empty chrom, three fields: the line starts with a TAB. -/
+example : encodeLine ex3 = some
+    [9, 45, 53, 9, 57, 50, 50, 51, 51, 55, 50, 48, 51, 54, 56, 53, 52, 55, 55, 53, 56, 48, 55] := by
+  decide +kernel
+example : parseLine (splitOn TAB ((encodeLine ex12).getD [])) = some ex12 := by decide +kernel
+example : parseLine (splitOn TAB ((encodeLine ex3).getD [])) = some (truncate 3 ex3) := by decide +kernel
+
+/-- The block clause of `WF` is needed: with 10 fields and a non-zero block count the
+reader rejects what the writer wrote (sizes are not written, so their count is 0 ≠ 2). -/
+example : parseLine (splitOn TAB ((encodeLine { ex12 with n := 10 }).getD [])) = none := by
+  decide +kernel
+/-- The `#` clause of `WF` is needed: a chrom starting with `#` makes the line a comment. -/
+example : decode ((encode { ex12 with chrom := [35, 49] }).getD []) = [] := by decide +kernel
 
 /-! ## 2. The writer -/
 
@@ -204,58 +231,47 @@ theorem file_roundtrip_no_final_lf (N : Nat) (bs : List Bed) (last : Bed)
     ((encodeLine last).getD []) (truncate N last) (spec_of_WF N last hlast)
   simpa [term, List.filterMap_eq_map, Function.comp_def] using this
 
-private theorem entry_spec (N : Nat) (e : Entry) (h : e.OK N) :
-    Spec N (match e with | .rec b _ => (encodeLine b).getD [] | .skip l _ => l)
-      (match e with | .rec b _ => some (truncate N b) | .skip _ _ => none) := by
+private theorem entry_spec (N : Nat) (e : Entry) (h : e.OK N) : Spec N e.line (e.out N) := by
   cases e with
-  | rec b c => exact spec_of_WF N b h
+  | record b c => exact spec_of_WF N b h
   | skip l c => exact ⟨h.2, h.1⟩
 
-private theorem entry_items (N : Nat) (es : List Entry) :
-    ((es.filterMap fun e => match e with | .rec b _ => some (truncate N b) | .skip _ _ => none).map Item.ok)
-      = (es.map (Entry.items N)).flatten := by
-  induction es with
-  | nil => rfl
-  | cons e es ih => cases e <;> simp [Entry.items, List.filterMap_cons, ih]
-
 private theorem entry_bytes (es : List Entry) :
-    (es.map fun e => (match e with | .rec b _ => (encodeLine b).getD [] | .skip l _ => l)
-        ++ term (match e with | .rec _ c => c | .skip _ c => c))
-      = es.map Entry.bytes := by
+    (es.map fun e => e.line ++ term e.crlf) = es.map Entry.bytes := by
   apply List.map_congr_left
   intro e _
-  cases e <;> simp [Entry.bytes, term, lineEnd]
+  simp [Entry.bytes, term, lineEnd]
 
 /-- Records mixed with blank lines and `#` comment lines, each line ending in
 LF or CR LF. -/
 theorem file_roundtrip_mixed (N : Nat) (es : List Entry) (h : ∀ e ∈ es, e.OK N) :
-    decode (es.map Entry.bytes).flatten = (es.map (Entry.items N)).flatten := by
-  have := decode_file N (fun e : Entry => match e with | .rec b _ => (encodeLine b).getD [] | .skip l _ => l)
-    (fun e => match e with | .rec _ c => c | .skip _ c => c)
-    (fun e => match e with | .rec b _ => some (truncate N b) | .skip _ _ => none)
-    es (fun e he => entry_spec N e (h e he))
-  rw [entry_bytes, entry_items] at this
+    decode (es.map Entry.bytes).flatten = (es.filterMap (Entry.out N)).map Item.ok := by
+  have := decode_file N Entry.line Entry.crlf (Entry.out N) es (fun e he => entry_spec N e (h e he))
+  rw [entry_bytes] at this
   exact this
 
 /-- Same, with a final record that has no line terminator. -/
 theorem file_roundtrip_mixed_no_final_lf (N : Nat) (es : List Entry) (last : Bed)
     (h : ∀ e ∈ es, e.OK N) (hlast : WF N last) :
     decode ((es.map Entry.bytes).flatten ++ (encodeLine last).getD [])
-      = (es.map (Entry.items N)).flatten ++ [Item.ok (truncate N last)] := by
-  have := decode_file_last N
-    (fun e : Entry => match e with | .rec b _ => (encodeLine b).getD [] | .skip l _ => l)
-    (fun e => match e with | .rec _ c => c | .skip _ c => c)
-    (fun e => match e with | .rec b _ => some (truncate N b) | .skip _ _ => none)
-    es (fun e he => entry_spec N e (h e he))
+      = (es.filterMap (Entry.out N)).map Item.ok ++ [Item.ok (truncate N last)] := by
+  have := decode_file_last N Entry.line Entry.crlf (Entry.out N) es
+    (fun e he => entry_spec N e (h e he))
     ((encodeLine last).getD []) (truncate N last) (spec_of_WF N last hlast)
-  rw [entry_bytes, entry_items] at this
+  rw [entry_bytes] at this
   exact this
 
 example : ∀ b ∈ [ex12, { ex12 with name := [], blockCount := 0, blockSizes := [], blockStarts := [] }],
     WF 12 b := by decide
 example : ∀ b ∈ [ex3, ex3], WF 3 b := by decide
-example : ∀ e ∈ [Entry.skip [35, 9, 120] true, Entry.rec ex12 false, Entry.skip [] false,
-    Entry.rec ex12 true, Entry.skip [35] false], e.OK 12 := by decide
+example : ∀ e ∈ [Entry.skip [35, 9, 120] true, Entry.record ex12 false, Entry.skip [] false,
+    Entry.record ex12 true, Entry.skip [35] false], e.OK 12 := by decide
+
+/-- Concrete instance, evaluated directly on the model: comment (CR LF), record, blank line,
+record (CR LF), comment. -/
+example : decode ([Entry.skip [35, 9, 120] true, Entry.record ex12 false, Entry.skip [] false,
+      Entry.record ex12 true, Entry.skip [35] false].map Entry.bytes).flatten
+    = [Item.ok ex12, Item.ok ex12] := by decide +kernel
 
 /-! ## 4. An error ends the iteration -/
 
@@ -275,11 +291,23 @@ theorem err_only_last_idx (e : Ending) (x : Bytes) (i : Nat)
   have hget : (decodeSrc e x)[i] = Item.err := by
     rw [List.getElem?_eq_getElem hi] at h; exact Option.some.inj h
   have hsplit : decodeSrc e x = (decodeSrc e x).take i ++ Item.err :: (decodeSrc e x).drop (i + 1) := by
-    rw [← hget, List.take_append_drop_getElem_cons_drop]
+    rw [← hget, ← List.drop_eq_getElem_cons hi, List.take_append_drop]
   have hpost := err_only_last e x _ _ hsplit
   have := congrArg List.length hpost
   simp at this
   omega
+
+/-- The record read from the line `a<TAB>1<TAB>2`. -/
+def exA : Bed :=
+  { n := 3, chrom := [97], chromStart := 1, chromEnd := 2, name := [], score := 0, strand := [],
+    thickStart := 0, thickEnd := 0, rgb := (0, 0, 0), blockCount := 0, blockSizes := [],
+    blockStarts := [] }
+
+/-- Instances with an error item: a non-numeric start; a field-count change; a failing source. -/
+example : decodeSrc .eof [97, 9, 98, 9, 99, 10, 97, 9, 49, 9, 50, 10] = [Item.err] := by decide +kernel
+example : decodeSrc .eof [97, 9, 49, 9, 50, 10, 97, 9, 49, 9, 50, 9, 120, 10, 97, 9, 49, 9, 50, 10]
+    = [Item.ok exA, Item.err] := by decide +kernel
+example : decodeSrc .fail [97, 9, 49, 9, 50, 10, 97, 9, 49] = [Item.ok exA, Item.err] := by decide +kernel
 
 /-! ## 5. Source failing after k bytes of a well-formed file -/
 
@@ -288,5 +316,10 @@ theorem fault_prefix_wf (N : Nat) (bs : List Bed) (h : ∀ b ∈ bs, WF N b) (k 
       = (bs.take n).map (fun b => Item.ok (truncate N b)) ++ [Item.err] := by
   exact fault_prefix N (fun b => (encodeLine b).getD []) (truncate N) bs
     (fun b hb => spec_of_WF N b (h b hb)) none (Or.inl rfl) k
+
+/-- Cutting the two-record file of `ex12` inside the second record: one record, then the error. -/
+example : decodeSrc .fail (([ex12, ex12].map fun b => (encodeLine b).getD [] ++ [10]).flatten.take 120)
+    = [Item.ok ex12, Item.err] := by decide +kernel
+example : ∀ b ∈ [ex12, ex12], WF 12 b := by decide
 
 end Bio.Bed
